@@ -23,6 +23,7 @@ type Step struct {
 	Block *BlockSpec `json:"block,omitempty"`
 	Tx    *TxSpec    `json:"tx,omitempty"`
 	Ref   int        `json:"ref,omitempty"` // deliver: which held/known block
+	Muts  []MutSpec  `json:"muts,omitempty"` // blockmut: the single mutations to show the node first
 	Secs  int64      `json:"secs,omitempty"`
 }
 
@@ -59,6 +60,8 @@ type sim struct {
 	// failedSwitch: a delivery errored and still moved the node off its chain
 	failedSwitch bool
 	buildHeight  uint32 // height of the block the transaction being built is meant for
+	frozen       int    // actor whose address is frozen (-1: none)
+	frozenHeight uint32
 }
 
 func (s *sim) now() time.Time { return time.Now() }
@@ -143,6 +146,7 @@ func (s *sim) start(fresh bool) error {
 	processInit()
 	cfg := baseConfig(&s.actors[0].acc.ProgramHash)
 	s.applyKnobs(cfg)
+	s.applyPolicyKnobs(cfg)
 	n, err := newNode(s.dir, cfg, s.actors[1%len(s.actors)].acc.Address)
 	if err != nil {
 		return err
@@ -221,6 +225,10 @@ func (s *sim) step(st *Step) {
 			return
 		}
 		s.submit(*st.Tx)
+	case "blockmut":
+		if st.Block != nil {
+			s.blockMutants(st.Block, st.Muts)
+		}
 	case "minepool":
 		s.minePool()
 	case "restart":
@@ -250,6 +258,8 @@ func propOfReason(why string) string {
 		return "C07"
 	case "coinbase-overpays", "coinbase-underpays":
 		return "C11"
+	case "frozen-address":
+		return "C32"
 	case "auxpow-for-other-hash":
 		return "C10"
 	}
@@ -371,7 +381,7 @@ func (s *sim) submit(spec TxSpec) {
 		return
 	}
 	s.txs[info.tx.Hash()] = info
-	label, _ := labelTx(v, info.facts, tip.height+1, int64(s.node.cfg.MinTransactionFee), s.node.cfg.PowConfiguration.CoinbaseMaturity)
+	label, _ := s.label(v, info, tip.height+1)
 	if conflict {
 		label = "input-already-spent"
 		c.Fault("mempool-conflicting-spend")
@@ -467,7 +477,7 @@ func (s *sim) minePool() {
 		if info == nil {
 			panic("harness: node mined a transaction the harness never made")
 		}
-		label, fee := labelTx(v, info.facts, mb.height, int64(s.node.cfg.MinTransactionFee), s.node.cfg.PowConfiguration.CoinbaseMaturity)
+		label, fee := s.label(v, info, mb.height)
 		mb.txLabel = append(mb.txLabel, label)
 		if label == "" {
 			applyTx(v, tx.Hash(), info.facts, info.outs, mb.height)
